@@ -84,6 +84,10 @@ package liveness
 // a verdict is put into a cache only after it was measured by this call (a cache hit is never stored again - that would
 // restart its lifetime), and into the cache that matches it
 //@   atcall cache).Add before: assert @C18: defined(measured) && arg0 != nil && (arg0 == blt.ipCacheLive || arg0 == blt.ipCacheNonLive) && (measured ==> arg0 == blt.ipCacheLive) && (!measured ==> arg0 == blt.ipCacheNonLive)
+// "never stale": the verdict is stamped with the clock reading taken by this call, exactly - a rounded or otherwise
+// adjusted stamp can lie in the future, and the verdict is then served past its lifetime
+//@   atcall time.Now after: snap stampedAt := tnanos(res)
+//@   atcall cache).Add before: assert @C18: defined(stampedAt) && arg2 != nil && tnanos(arg2.cachedTime) == stampedAt
 // what is answered is the cached verdict on a hit and the measured one otherwise
 //@   ensures @C18: defined(measured) ==> result0 == measured
 //@   ensures @C18: !defined(measured) ==> defined(hit) && result0 == hit && result1 == hitErr
